@@ -184,6 +184,11 @@ func ensureBuild(verifDir, repoDir string) (*buildInfo, error) {
 	}
 	mod := string(gm)
 	mod = strings.Replace(mod, "kgsimhook => ./simhook", "kgsimhook => "+filepath.Join(harness, "simhook"), 1)
+	if repoDir != "/repo" {
+		// KG_REPO: build against another checkout (scratch worktree, run snapshot)
+		mod = strings.ReplaceAll(mod, "=> /repo/", "=> "+repoDir+"/")
+		mod = strings.ReplaceAll(mod, "=> /repo\n", "=> "+repoDir+"\n")
+	}
 	mod += fmt.Sprintf("\nreplace %s => %s\n", meta.GolibModule, final(golibDst))
 	if err := os.WriteFile(filepath.Join(tmp, "go.mod"), []byte(mod), 0o644); err != nil {
 		return nil, err
